@@ -147,6 +147,50 @@ Definition list_spec (content : bytes) : option (list bytes) :=
   option_map (filter (fun e => negb (is_nil e)))
              (all_some (map line_entry (split_on is_eol content))).
 
+(** ---------------------------------------------------------------- lloadfilefd in general, one-line files *)
+(** the same with the blank rule switched on ([strip = true], striptab bit 2: exactly
+    [line_tail]) or off ([strip = false]: blanks and tabs are ordinary bytes; used for
+    one-line files such as control/me and for tlsserverciphers) *)
+Fixpoint line_tail_m (strip : bool) (prev : N) (l : bytes) : option bytes :=
+  match l with
+  | [] => Some []
+  | b :: r =>
+      if N.eqb b 35 && negb (N.eqb prev 92) then Some []
+      else if strip && is_blank b then (if forallb is_blank r then Some [] else None)
+      else option_map (cons b) (line_tail_m strip b r)
+  end.
+
+Definition list_spec_m (strip : bool) (content : bytes) : option (list bytes) :=
+  option_map (filter (fun e => negb (is_nil e)))
+             (all_some (map (line_tail_m strip 0) (split_on is_eol content))).
+
+(** a buffer of C strings: the entries each followed by one NUL ... *)
+Definition cat (es : list bytes) : bytes := concat (map (fun e => e ++ [0%N]) es).
+(** ... and the non-empty NUL-separated strings found in a buffer *)
+Definition is_nul (b : N) : bool := N.eqb b 0.
+Definition pieces (buf : bytes) : list bytes := filter (fun e => negb (is_nil e)) (split_on is_nul buf).
+
+(** a line without its comment (from the first '#' not preceded by a backslash), blanks kept *)
+Fixpoint cut_comment (prev : N) (l : bytes) : bytes :=
+  match l with
+  | [] => []
+  | b :: r => if N.eqb b 35 && negb (N.eqb prev 92) then [] else b :: cut_comment b r
+  end.
+
+(** the non-empty lines of a file after removal of comments (blanks kept, nothing rejected) *)
+Definition plain_lines (content : bytes) : list bytes :=
+  filter (fun e => negb (is_nil e)) (map (cut_comment 0) (split_on is_eol content)).
+
+(** a one-line file (loadonelinerfd): no line at all = "not there" (ENOENT), exactly one
+    non-empty non-comment line = that line (its blanks are kept), a second one = error (EINVAL) *)
+Inductive oneline := OneNone | OneLine (l : bytes) | OneError.
+Definition oneliner_spec (content : bytes) : oneline :=
+  match plain_lines content with
+  | [] => OneNone
+  | [l] => OneLine l
+  | _ => OneError
+  end.
+
 (** ---------------------------------------------------------------- numeric control files (loadintfd) *)
 Definition dec_value (s : bytes) : N := fold_left (fun a b => (a * 10 + (b - 48))%N) s 0%N.
 
